@@ -7,7 +7,8 @@
 //!   dl-c10 run "<history>"                       one history, full trace (JSON line)
 //!   dl-c10 enum --len L [--alphabet reduced|full]   every valid history of length <= L
 //!   dl-c10 random --seed S --n N --len L            seeded random histories
-//!   dl-c10 disk "<history>" <dir>                 one history on a real directory (pruning)
+//!   dl-c10 breakfix                               break / repair / touch every bundled file
+//!   dl-c10 disk --root DIR                        fixed histories on a real directory (pruning)
 //!
 //! History syntax (space separated, an initial process is implicit, as `--watch` does):
 //!   E:<path>:<n>   edit an existing file to version n      -> source_changed(path)
@@ -34,8 +35,19 @@ const OUTPUT: &str = "out";
 const CONFIG: &str = ".darklua.json";
 const ENTRY: &str = "src/app/main.lua";
 
-/// content of a project file at version `n` (0 = does not parse)
+const CONF: &str = "lib/conf.json";
+
+/// content of a project file at version `n`:
+/// 0 = does not parse; for `lib/m3.lua`, 200.. = requires `./m1` back (a require cycle);
+/// for the entry, 100.. = no require at all
 fn template(path: &str, n: u32) -> String {
+    if path == CONF {
+        return if n == 0 {
+            "{ \"v\": \n".to_owned()
+        } else {
+            format!("{{ \"v\": {} }}\n", n)
+        };
+    }
     if n == 0 {
         return format!("local x = = 1 -- broken {}\n", path);
     }
@@ -48,12 +60,60 @@ fn template(path: &str, n: u32) -> String {
             n = n
         ),
         "lib/m1.lua" => format!(
-            "local m3 = require(\"./m3\")\n-- m1 v{n}\nreturn {{ v = m3.v + {n} }}\n",
+            "local m3 = require(\"./m3\")\nlocal conf = require(\"./conf.json\")\n-- m1 v{n}\nreturn {{ v = m3.v + conf.v + {n} }}\n",
+            n = n
+        ),
+        "lib/m3.lua" if n >= 200 => format!(
+            "local m1 = require(\"./m1\")\n-- m3 cyclic v{n}\nreturn {{ v = {n} }}\n",
             n = n
         ),
         "lib/m3.lua" => format!("-- m3 v{n}\nreturn {{ v = {n} }}\n", n = n),
         _ => format!("-- {p} v{n}\nlocal x = 1 + {n}\nreturn x\n", p = path, n = n),
     }
+}
+
+/// the files the entry pulls in; a version is healthy when the file parses and is not cyclic
+const BUNDLED: [&str; 4] = ["lib/m1.lua", "lib/m3.lua", "src/sub/b.lua", CONF];
+
+fn healthy_version(path: &str, n: u32) -> bool {
+    n != 0 && !(path == "lib/m3.lua" && n >= 200)
+}
+
+/// the requires written in the templates
+fn requires(path: &str, n: u32) -> Vec<&'static str> {
+    match path {
+        ENTRY if n != 0 && n < 100 => vec!["lib/m1.lua", "src/sub/b.lua", "lib/m3.lua"],
+        "lib/m1.lua" if n != 0 => vec!["lib/m3.lua", CONF],
+        "lib/m3.lua" if n >= 200 => vec!["lib/m1.lua"],
+        _ => Vec::new(),
+    }
+}
+
+/// the file exists, parses, and so does everything below it: the bundler inlines it for sure
+fn certainly_inlined(versions: &BTreeMap<String, u32>, path: &str) -> bool {
+    match versions.get(path) {
+        Some(n) if healthy_version(path, *n) => requires(path, *n)
+            .iter()
+            .all(|child| certainly_inlined(versions, child)),
+        _ => false,
+    }
+}
+
+/// files that a bundle of the entry certainly read and inlined, even if the bundle fails elsewhere
+fn read_before_failure(versions: &BTreeMap<String, u32>) -> Vec<String> {
+    let mut result = Vec::new();
+    let mut stack: Vec<&str> = match versions.get(ENTRY) {
+        Some(n) => requires(ENTRY, *n),
+        None => Vec::new(),
+    };
+    while let Some(path) = stack.pop() {
+        if certainly_inlined(versions, path) && !result.iter().any(|r| r == path) {
+            result.push(path.to_owned());
+            stack.extend(requires(path, versions[path]));
+        }
+    }
+    result.sort();
+    result
 }
 
 const N_CONFIGS: u32 = 6;
@@ -92,6 +152,7 @@ fn initial_files() -> BTreeMap<String, String> {
         ENTRY,
         "lib/m1.lua",
         "lib/m3.lua",
+        CONF,
     ] {
         files.insert(path.to_owned(), template(path, 1));
     }
@@ -379,6 +440,8 @@ struct World {
     resources: Resources,
     /// the user's view: every file except the ones the worker writes
     user_files: BTreeMap<String, String>,
+    /// template version of every user file (what the harness wrote, independent of darklua)
+    versions: BTreeMap<String, u32>,
     tree: Option<WorkerTree>,
 }
 
@@ -401,9 +464,11 @@ impl World {
         for (path, content) in &user_files {
             resources.write(path, content).expect("write");
         }
+        let versions = user_files.keys().map(|path| (path.clone(), 1)).collect();
         World {
             resources,
             user_files,
+            versions,
             tree: None,
         }
     }
@@ -426,18 +491,21 @@ impl World {
         // returns Ok(Some(error text)) when `process` returned an error
         match event {
             Ev::Edit(path, n) => {
+                self.versions.insert(path.clone(), *n);
                 self.write(path, template(path, *n));
                 if let Some(tree) = self.tree.as_mut() {
                     tree.source_changed(path);
                 }
             }
             Ev::Break(path) => {
+                self.versions.insert(path.clone(), 0);
                 self.write(path, template(path, 0));
                 if let Some(tree) = self.tree.as_mut() {
                     tree.source_changed(path);
                 }
             }
             Ev::Add(path, n) => {
+                self.versions.insert(path.clone(), *n);
                 self.write(path, template(path, *n));
                 if let Some(tree) = self.tree.as_mut() {
                     if let Err(err) = tree.collect_work(&self.resources, &options()) {
@@ -446,6 +514,7 @@ impl World {
                 }
             }
             Ev::AddSource(path, n) => {
+                self.versions.insert(path.clone(), *n);
                 self.write(path, template(path, *n));
                 if let Some(tree) = self.tree.as_mut() {
                     let output = if Path::new(path).starts_with(INPUT) {
@@ -466,6 +535,7 @@ impl World {
             Ev::Remove(path) => {
                 self.resources.remove(path).expect("memory remove");
                 self.user_files.remove(path);
+                self.versions.remove(path);
                 if let Some(tree) = self.tree.as_mut() {
                     tree.remove_source(path);
                 }
@@ -480,6 +550,7 @@ impl World {
                 for path in doomed {
                     self.resources.remove(&path).expect("memory remove");
                     self.user_files.remove(&path);
+                    self.versions.remove(&path);
                 }
                 if let Some(tree) = self.tree.as_mut() {
                     tree.remove_source(dir);
@@ -573,6 +644,21 @@ fn run_history(history: &[Ev], verbose: bool) -> Value {
             let mut expected: BTreeMap<String, String> = world.foreign();
             expected.extend(fresh_out);
             let equal = expected == out;
+            // an oracle for "which files a failed bundle certainly read and inlined", from the
+            // harness's own knowledge of the templates (never from darklua's failure path)
+            let failing = fresh["state"]["items"]
+                .as_array()
+                .map(|items| items.iter().any(|item| item["status"] == "err"))
+                .unwrap_or(false);
+            if failing {
+                let unhealthy: Vec<&str> = BUNDLED
+                    .iter()
+                    .copied()
+                    .filter(|path| !certainly_inlined(&world.versions, path))
+                    .collect();
+                step["unhealthy"] = json!(unhealthy);
+                step["read_before_failure"] = json!({ ENTRY: read_before_failure(&world.versions) });
+            }
             step["fresh"] = fresh;
             step["user_files"] = sources_json(&world.user_files);
             step["equal_fresh"] = Value::Bool(equal);
@@ -805,6 +891,55 @@ fn main() {
                 emit(run_with_limit(history, limit));
             }
         }
+        "breakfix" => {
+            // break a bundled file in every way, process, repair it (back to the original or to
+            // new content), process, then touch every position of the dependency graph, process
+            let positions = ["lib/m1.lua", "lib/m3.lua", "src/sub/b.lua", CONF];
+            let touch_targets = ["lib/m1.lua", "lib/m3.lua", "src/sub/b.lua", CONF, ENTRY];
+            let mut histories: Vec<Vec<Ev>> = Vec::new();
+            for position in positions {
+                let mut breaks: Vec<(&str, Vec<Ev>, bool)> = vec![
+                    ("parse", vec![Ev::Break(position.to_owned())], false),
+                    ("missing", vec![Ev::Remove(position.to_owned())], true),
+                ];
+                if position == "lib/m3.lua" {
+                    breaks.push(("cycle", vec![Ev::Edit(position.to_owned(), 200)], false));
+                }
+                for (_kind, break_events, removed) in breaks {
+                    for fix_version in [1u32, 7] {
+                        let fix = if removed {
+                            Ev::Add(position.to_owned(), fix_version)
+                        } else {
+                            Ev::Edit(position.to_owned(), fix_version)
+                        };
+                        for touch in touch_targets {
+                            if removed && touch == position {
+                                continue;
+                            }
+                            // broken, processed, touched while broken, repaired, touched again
+                            let mut a = break_events.clone();
+                            a.extend([Ev::Process, Ev::Edit(touch.to_owned(), 9), Ev::Process]);
+                            a.extend([fix.clone(), Ev::Process, Ev::Edit(touch.to_owned(), 11), Ev::Process]);
+                            histories.push(a);
+                            // broken, processed, repaired, touched in the same pass
+                            let mut b = break_events.clone();
+                            b.extend([Ev::Process, fix.clone(), Ev::Edit(touch.to_owned(), 12), Ev::Process]);
+                            histories.push(b);
+                        }
+                        // broken and repaired without a process in between
+                        let mut c = break_events.clone();
+                        c.extend([fix.clone(), Ev::Process]);
+                        histories.push(c);
+                    }
+                }
+            }
+            let mut seen = std::collections::HashSet::new();
+            for history in histories {
+                if seen.insert(render_history(&history)) {
+                    emit(run_with_limit(history, limit));
+                }
+            }
+        }
         "disk" => {
             // dl-c10 disk --root DIR : fixed histories on a real directory, output folder
             // pre-existing or not; observes the directories too (ancestor pruning of clean_files)
@@ -836,7 +971,7 @@ fn main() {
             let _ = std::fs::remove_dir_all(root.join("fresh"));
         }
         _ => {
-            eprintln!("usage: dl-c10 run|enum|random|disk ...");
+            eprintln!("usage: dl-c10 run|enum|random|breakfix|disk ...");
             std::process::exit(2);
         }
     }
